@@ -142,6 +142,32 @@ pub fn synced_lens_after(log: &[Rec]) -> Vec<BTreeMap<String, usize>> {
     out
 }
 
+/// Live images after call indices: `live[c]` = per file the number of bytes written to it by
+/// the first `c` calls, synced or not (what a restart WITHOUT power loss finds; a partial
+/// append leaves its bytes).
+pub fn live_lens_after(log: &[Rec]) -> Vec<BTreeMap<String, usize>> {
+    let mut cur: BTreeMap<String, usize> = BTreeMap::new();
+    let mut out = Vec::with_capacity(log.len() + 1);
+    out.push(cur.clone());
+    for r in log {
+        match r.op {
+            Op::Create => {
+                if r.ok {
+                    cur.insert(r.file.clone(), 0);
+                }
+            }
+            Op::Append => {
+                if cur.contains_key(&r.file) {
+                    cur.insert(r.file.clone(), r.offset + r.written);
+                }
+            }
+            Op::Sync => {}
+        }
+        out.push(cur.clone());
+    }
+    out
+}
+
 pub struct TraceWriter {
     name: String,
     inner: Arc<Mutex<Inner>>,
